@@ -161,11 +161,14 @@ const (
 	RecvQueried      = 2 // constructor result whose query methods were all called before Decode
 	RecvCopy         = 3 // a by-value copy of a constructor result (the caller holds the decoder by value)
 	RecvEmbedded     = 4 // the lower-level decoder embedded in a fresh higher-level constructor result (x.Base / x.Temporal / x.Temporal.Base)
-	RecvReplugged    = 5 // constructor result whose embedded part(s) were replaced by other fresh constructor results before Decode
-	RecvPreset       = 6 // constructor result whose exported fields named in the string (and Ver) were assigned other valid values before Decode
-	RecvNilAfterFail = 7 // typed nil receiver, right after another nil-receiver Decode of the same type that was rejected
-	NJudgedModes     = 8 // the modes above are equivalent to a fresh constructor result as far as every property is concerned
-	RecvScribbled    = 8 // constructor result whose exported fields were all overwritten (valid, invalid, out-of-range values) before Decode: only C12's shape claims are judged
+	RecvNilAfterFail = 5 // typed nil receiver, right after another nil-receiver Decode of the same type that was rejected
+	NJudgedModes     = 6 // the modes above are decoders "obtained from a constructor or used through a nil receiver": every property applies
+	// Not judged (kept for the record of the seeded changes that need them, see DESIGN 9.6): decoders the client
+	// has written to before their first Decode.  The statements quantify over decoders as a constructor or a nil
+	// receiver provides them.
+	RecvReplugged = 6 // embedded part(s) replaced by other fresh constructor results before Decode
+	RecvPreset    = 7 // exported fields named in the string (and Ver) assigned other valid values before Decode
+	RecvScribbled = 8 // every exported field overwritten (valid, invalid, out-of-range values) before Decode
 )
 
 // ModeNames describes the receiver modes (recorded in replay files).
@@ -175,9 +178,9 @@ var ModeNames = []string{
 	"constructor result queried before Decode",
 	"by-value copy of a constructor result",
 	"lower-level decoder embedded in a fresh higher-level constructor result",
+	"nil receiver right after a rejected nil-receiver Decode of the same type",
 	"re-plugged: embedded parts replaced by other fresh constructor results before Decode",
 	"preset: exported fields named in the string (and Ver) assigned other valid values before Decode",
-	"nil receiver right after a rejected nil-receiver Decode of the same type",
 	"scribbled: every exported field overwritten before Decode",
 }
 
@@ -483,18 +486,14 @@ func Assemble(k Kind, s string, how int) (o Obj, ok bool, pan *Panic) {
 // constructor result that was queried before Decode.
 func AutoMode(s string) int {
 	switch (strHash(s) >> 7) % 16 {
-	case 4, 5, 6:
+	case 5, 6, 7:
 		return RecvNil
-	case 7, 8:
+	case 8, 9, 10:
 		return RecvQueried
-	case 9, 10:
+	case 11, 12:
 		return RecvCopy
-	case 11:
-		return RecvEmbedded
-	case 12:
-		return RecvReplugged
 	case 13, 14:
-		return RecvPreset
+		return RecvEmbedded
 	case 15:
 		return RecvNilAfterFail
 	}
